@@ -315,13 +315,28 @@ def impl_interp(x, y, labels, data, dtype, label_float, layout="C", p=P_EXP, kri
     return out
 
 
+REL64 = 2.0 ** -40        # float64 data: a weighted sum of n <= 384 terms is exact to (n + 2) * 2^-53 relative
+
+
 def dtype_tol(dtype, scale):
-    """float64: 1e-9 relative; float32: 1e-5 relative; integer arrays: the float result is cast back
-    (truncated) into the array, so one unit."""
+    """Tolerance of the range clause.  The weights are float64 and sum to one within n * 2^-53, the weighted sum is
+    formed in float64: relative error below 2^-40 of the largest source value.  float64 data: 2^-40 * scale.
+    float32 data: the float64 sum is rounded into the float32 array; a value at most 2^-40 (relative) outside
+    [lo, hi] with float32 bounds rounds to lo / hi, so the range holds EXACTLY (and where all sources hold the same
+    value v the result is exactly v).  Integer arrays: the float result is truncated into the array: one unit."""
     dt = np.dtype(dtype)
     if dt.kind in "iu":
         return 1.0
-    return (TOL if dt == np.float64 else 1e-5) * scale
+    return REL64 * scale if dt == np.float64 else 0.0
+
+
+def model_tol(dtype, value, scale):
+    """|implementation - exact model value|: float64 2^-40 relative to the largest input; float32 additionally
+    one rounding into float32 (2^-24 relative to the value); integers one unit."""
+    dt = np.dtype(dtype)
+    if dt.kind in "iu":
+        return 1.0
+    return REL64 * scale + (0.0 if dt == np.float64 else 2.0 ** -24 * abs(value))
 
 
 def oracle_interp(x, y, labels, data, out, dtype, p=P_EXP, krig=KRIG):
@@ -428,11 +443,10 @@ def compare_interp(model_out, out, labels, scale, dtype):
     if len(model_out) != flat.size:
         return "model output has %d values, implementation %d" % (len(model_out), flat.size)
     ns = out.shape[1] if out.ndim == 2 else 0
-    tol = dtype_tol(dtype, scale) + 2.0 / OUT_SCALE
     for k, (mv, iv) in enumerate(zip(model_out, flat)):
         r = k // ns if ns else 0
         if labels[r] in (1, 2):
-            if not (abs(mv / OUT_SCALE - iv) <= tol):
+            if not (abs(mv / OUT_SCALE - iv) <= model_tol(dtype, mv / OUT_SCALE, scale) + 2.0 / OUT_SCALE):
                 return "row %d sample %d: model %.12g, implementation %.12g" % (r, k % ns, mv / OUT_SCALE, iv)
         else:
             if iv * OUT_SCALE != mv:
@@ -478,15 +492,32 @@ def part_interp(ctx, st, model):
     def add(name, x, y, labels, ns=None, dtype=None, kd=None):
         nc = len(labels)
         ns = ns if ns is not None else rng.choice([1, 2, 3])
+        kd_given = kd
         kd = kd if kd is not None else rng.choice([0, 0, 0, 3])
         data = [[rng.choice([0, 1, -1, 500, -500, rng.randrange(-500, 501), rng.randrange(-500, 501)])
                  for _ in range(ns)] for _ in range(nc)]
+        common_mode = False
+        if rng.random() < 0.2:
+            # common-mode samples: every channel reads the same value (transient on all channels, all at the rail),
+            # or a large offset with one unit of noise: the admissible range is a single value / one float32 ulp
+            for t in range(ns):
+                v = rng.choice([1, 3, -7, 500, 12345, 8388607, -8388607, 16777215, 5000001, rng.randrange(1, 10 ** 7)])
+                if dtype == "int16":
+                    v = max(-30000, min(30000, v))
+                jit = rng.random() < 0.3
+                for j in range(nc):
+                    if labels[j] not in (1, 2):
+                        data[j][t] = v - (rng.randrange(2) if jit else 0)
+            if kd_given is None:
+                kd = rng.choice([0, 0, 10, 23])
+            common_mode = True
         cases.append({"geom": name, "x": x, "y": y, "labels": list(labels), "data_int": data, "kd": kd,
                       "dtype": dtype or "float64", "label_float": rng.random() < 0.5,
                       "layout": rng.choice(["C", "C", "C", "F", "view", "floatxy"]),
                       # the decay exponent and the kriging distance are parameters of the function
                       "p": P_EXP if rng.random() < 0.88 else rng.choice([0.5, 1.0, 2.0, 1.3]),
-                      "krig": KRIG if rng.random() < 0.88 else rng.choice([10, 40, 20.5, 20])})
+                      "krig": KRIG if rng.random() < 0.88 else rng.choice([10, 40, 20.5, 20]),
+                      "common_mode": common_mode})
 
     # (a) every label vector over {0,1,2,3} on small probes
     nmax_exh = 7 if ctx.thorough() else 5
@@ -518,10 +549,16 @@ def part_interp(ctx, st, model):
         cases.append(c2)
     for c in rng.sample(cases[:2000], 300):
         c2 = dict(c)
-        c2["dtype"] = rng.choice(["int16", "int32", "int64"])
+        c2["dtype"] = rng.choice(["int32", "int64"] if c.get("common_mode") else ["int16", "int32", "int64"])
         c2["kd"] = 0
         cases.append(c2)
 
+    # float32 (the dtype spikeglx.Reader delivers) on common-mode samples, small probes and the 384-channel headers
+    cm = [c for c in cases if c.get("common_mode") and c["dtype"] == "float64"]
+    for c in rng.sample(cm, min(len(cm), 400)) + [c for c in cm if len(c["labels"]) == 384]:
+        c2 = dict(c)
+        c2["dtype"] = "float32"
+        cases.append(c2)
     inputs, outs, keep = [], [], []
     weight_checked = set()
     cut_checked = set()
@@ -577,6 +614,8 @@ def part_interp(ctx, st, model):
         st.count("interp_nc%s" % (len(labels) if len(labels) < 384 else "384:" + c["geom"]))
         st.count("interp_" + c["dtype"])
         st.count("interp_layout_" + c["layout"])
+        if c.get("common_mode"):
+            st.count("interp_common_mode_" + c["dtype"])
         if nbad:
             st.nontrivial.add(("interp", key[0], key[1], key[2], key[3]))
             st.count("interp_with_bad")
